@@ -111,8 +111,9 @@ func runHistory(c *lib.Ctx, p hparams, kinds map[string]int) (evs []hevent) {
 	evs = append(evs, hevent{O: op{Op: "Reset"}, It: []int{}, All: readAll(), Keys: keys})
 	filling := true
 	val := 0
-	for s := 0; s < p.Steps; s++ {
+	for s := 0; s < p.Steps; s++ { // Drop events are not counted as steps
 		if len(live) > maxLive {
+			s--
 			k := rng.Intn(len(live) - 1) // never the newest
 			live = append(live[:k:k], live[k+1:]...)
 			present = append(present[:k:k], present[k+1:]...)
